@@ -63,8 +63,8 @@ static void flag(int v, const char *note) { if (viol) return; viol = v; snprintf
 static void child_run(void *ud) {
   runarg_t *a = (runarg_t *)ud;
   cov = (ocov_t *)SIM_SHARED_EXT;
-  L_omp = lib_by_name("omp"); L_seq = lib_by_name("seq");
-  if (!L_omp || !L_seq) { sim_shared->aux[1] = 1; return; }
+  L_omp = lib_by_name(strstr(a->text, "lib=ompn") ? "ompn" : "omp"); L_seq = lib_by_name(strstr(a->text, "lib=ompn") ? "seqn" : "seq");
+  if (!L_omp || !L_seq) { sim_shared->aux[1] = 1; snprintf(sim_shared->note, sizeof sim_shared->note, "variant not linked"); return; }
   sched_cfg_t cfg;
   int have_cfg = 0, control = 0;
   char *copy = strdup(a->text);
@@ -171,6 +171,13 @@ static int pdim(rng_t *r, int maxj) {
   if (rng_chance(r, 1, 6)) d = 1 + (int)rng_below(r, 200);
   return d < 1 ? 1 : d;
 }
+/* operand line: an owned matrix, or (1 in 4) a view into a larger junk-filled owner at an odd or even word offset */
+static void emat(rng_t *r, sbuf_t *o, int reg, int m, int n, const char *gen, long p, unsigned long long s) {
+  if (rng_chance(r, 1, 4)) {
+    int r0s[] = { 0, 1, 3, 0 }, c0s[] = { 1, 1, 0, 2, 3 }, ecs[] = { 0, 5, 64, 70, 0 };
+    sb_printf(o, "wmat %d %d %d %s %ld %llu %d %d %d %d\n", reg, m, n, gen, p, s, r0s[rng_below(r, 4)], c0s[rng_below(r, 5)], (int)rng_below(r, 3), ecs[rng_below(r, 5)]);
+  } else sb_printf(o, "mat %d %d %d %s %ld %llu\n", reg, m, n, gen, p, s);
+}
 static const char *OMP_OPS[] = { "mul_mp", "addmul_mp", "mul_mp", "addmul_mp", "mul", "addmul", "mul_m4rm", "addmul_m4rm", "ech_m4ri", "ech", "top_ech", "inv_m4ri", "pluq", "ple", "solve", "kernel", "sqr", "ech_pluq" };
 #define N_OMP_OPS 18
 static void gen_program(uint64_t rseed, uint64_t idx, const char *tier, sbuf_t *o, int control) {
@@ -179,7 +186,7 @@ static void gen_program(uint64_t rseed, uint64_t idx, const char *tier, sbuf_t *
   int thorough = !strcmp(tier, "thorough");
   const char *op = OMP_OPS[idx % N_OMP_OPS];
   if (control) op = (idx & 1) ? "mul_mp" : "addmul_mp";
-  sb_printf(o, "# m4sim engine=omp scenario=%s lib=omp\n", op);
+  sb_printf(o, "# m4sim engine=omp scenario=%s lib=%s\n", op, (idx / N_OMP_OPS) % 3 == 2 ? "ompn" : "omp"); /* every third round: the no-SSE2 OpenMP build against the no-SSE2 sequential build */
   if (control) sb_printf(o, "control critical_sections_off\n");
   if (rng_chance(&r, 1, 2)) sb_printf(o, "knobs %d %d %d\n", 4096 << rng_below(&r, 4), 32768 << rng_below(&r, 3), 262144 << rng_below(&r, 4));
   sched_cfg_t c;
@@ -193,21 +200,21 @@ static void gen_program(uint64_t rseed, uint64_t idx, const char *tier, sbuf_t *
   if (IS("mul_mp") || IS("addmul_mp") || IS("mul") || IS("addmul")) {
     int m = pdim(&r, mj), l = pdim(&r, mj), n = pdim(&r, mj);
     if (control) { m = 256 + (int)rng_below(&r, 200); l = 256 + (int)rng_below(&r, 200); n = 256 + (int)rng_below(&r, 200); } /* sections with temporaries: the block cache is used concurrently */
-    sb_printf(o, "mat 1 %d %d rand 128 %llu\nmat 2 %d %d rand 128 %llu\n", m, l, s1, l, n, s2);
+    emat(&r, o, 1, m, l, "rand", 128, s1); emat(&r, o, 2, l, n, "rand", 128, s2);
     int given = (IS("addmul_mp") || IS("addmul")) ? rng_chance(&r, 3, 4) : rng_chance(&r, 1, 2);
-    if (given) sb_printf(o, "mat 0 %d %d rand 128 %llu\n", m, n, s3);
+    if (given) emat(&r, o, 0, m, n, "rand", 128, s3);
     sb_printf(o, "op %s 0 1 2 %ld\n", op, control ? 64 : cut[rng_below(&r, 6)]);
   } else if (IS("sqr")) {
     int n = pdim(&r, mj);
     sb_printf(o, "mat 1 %d %d rand 128 %llu\nop sqr 0 1 %ld\n", n, n, s1, cut[rng_below(&r, 6)]);
   } else if (IS("mul_m4rm") || IS("addmul_m4rm")) {
     int m = rng_chance(&r, 1, 2) ? 513 + (int)rng_below(&r, thorough ? 1800 : 900) : pdim(&r, mj), l = pdim(&r, mj > 3 ? 3 : mj), n = rng_chance(&r, 1, 2) ? 1 + (int)rng_below(&r, 200) : pdim(&r, mj);
-    sb_printf(o, "mat 1 %d %d rand 128 %llu\nmat 2 %d %d rand 128 %llu\n", m, l, s1, l, n, s2);
-    if (IS("addmul_m4rm") || rng_chance(&r, 1, 2)) sb_printf(o, "mat 0 %d %d rand 128 %llu\n", m, n, s3);
+    emat(&r, o, 1, m, l, "rand", 128, s1); emat(&r, o, 2, l, n, "rand", 128, s2);
+    if (IS("addmul_m4rm") || rng_chance(&r, 1, 2)) emat(&r, o, 0, m, n, "rand", 128, s3);
     sb_printf(o, "op %s 0 1 2 %d\n", op, (int)rng_below(&r, 9));
   } else if (IS("ech_m4ri") || IS("ech") || IS("top_ech") || IS("ech_pluq")) {
     int m = rng_chance(&r, 1, 2) ? 520 + (int)rng_below(&r, thorough ? 1600 : 800) : pdim(&r, mj), n = rng_chance(&r, 1, 2) ? 20 + (int)rng_below(&r, 250) : pdim(&r, mj);
-    sb_printf(o, "mat 0 %d %d %s %d %llu\n", m, n, rng_chance(&r, 1, 3) ? "rank" : "rand", rng_chance(&r, 1, 2) ? 128 : 1 + (int)rng_below(&r, (uint64_t)(m < n ? m : n)), s1);
+    emat(&r, o, 0, m, n, rng_chance(&r, 1, 3) ? "rank" : "rand", rng_chance(&r, 1, 2) ? 128 : 1 + (long)rng_below(&r, (uint64_t)(m < n ? m : n)), s1);
     if (IS("ech_m4ri")) sb_printf(o, "op ech_m4ri 0 %d %d\n", (int)rng_below(&r, 2), (int)rng_below(&r, 9));
     else if (IS("top_ech")) sb_printf(o, "op top_ech 0 %d\n", (int)rng_below(&r, 9));
     else sb_printf(o, "op %s 0 %d\n", op, (int)rng_below(&r, 2));
